@@ -974,6 +974,23 @@ impl Sup {
                 // same number, and its exit stop can be reported before this call's exit stop
                 self.fds.remove(&((a[0] as i32) as i64));
             }
+            // marker protocol (API probe): the text written to a file named *xv-marker is kept in path2
+            let mut path2 = path2;
+            if sys == Sys::Write && nr == libc::SYS_write {
+                if let Some(p) = &path {
+                    if p.ends_with(b"xv-marker") {
+                        let n = std::cmp::min(a[2] as usize, 64);
+                        let mut buf = vec![0u8; n];
+                        let local = libc::iovec { iov_base: buf.as_mut_ptr() as *mut libc::c_void, iov_len: n };
+                        let remote = libc::iovec { iov_base: a[1] as *mut libc::c_void, iov_len: n };
+                        let r = unsafe { libc::process_vm_readv(self.pid, &local, 1, &remote, 1, 0) };
+                        if r > 0 {
+                            buf.truncate(r as usize);
+                            path2 = Some(buf);
+                        }
+                    }
+                }
+            }
             let interesting = self.interesting(&path);
             if sys == Sys::Other && interesting {
                 self.unknown += 1;
